@@ -212,6 +212,8 @@ PROFILES = {
     'nested': {'nested': True},
     # nested build_file calls below the enclosing function's own in-progress target
     'selfnest': {'selfnest': True},
+    # base histories for fault injection in which the program retries / falls back after a caught library error
+    'faultretry': {'faultretry': True},
     'swap': {'swap': True},
     # the cache file lives in a directory of its own that the build has to create (C12, C01, C02)
     'subcache': {'subcache': True, 'p_clean': 0.35, 'p_crash': 0.25, 'p_double_clean': 0.3},
@@ -222,6 +224,8 @@ PROFILES = {
     'threaddup': {'threads': True, 'p_dup': 0.85},
     # threads that rebuild existing outputs (each moves an old output aside), often followed by a rollback
     'threadsrb': {'threads_rb': True},
+    # threads that also issue queries (on paths whose answers cannot depend on the other threads)
+    'threadsq': {'threads_q': True},
     # base histories for fault injection (every eligible library call is a fault point)
     'fault': {'p_crash': 0.1, 'p_clean': 0.1, 'raise': 10, 'ext': [0, 1, 1, 2], 'builds': [2, 3],
               'catch': 80},
@@ -246,6 +250,14 @@ VERSION_TERMS = [
     # falsy but not None
     {'k': 'int', 'n': '0'}, {'k': 'float', 'n': '0', 'r': '0.0'}, {'k': 'bool', 'b': False}, {'k': 'str', 's': ''},
     {'k': 'list', 'xs': []}, {'k': 'dict', 'kv': []}, {'k': 'float', 'n': '0', 'r': '-0.0'},
+    # objects that differ only by additional keys (at the top and one level down), lists by an additional element
+    {'k': 'dict', 'kv': [[{'k': 'str', 's': 'a'}, {'k': 'int', 'n': '1'}]]},
+    {'k': 'dict', 'kv': [[{'k': 'str', 's': 'a'}, {'k': 'int', 'n': '1'}], [{'k': 'str', 's': 'b'}, {'k': 'int', 'n': '2'}],
+                         [{'k': 'str', 's': 'c'}, {'k': 'none'}]]},
+    {'k': 'dict', 'kv': [[{'k': 'str', 's': 'o'}, {'k': 'dict', 'kv': [[{'k': 'str', 's': 'x'}, {'k': 'int', 'n': '1'}]]}]]},
+    {'k': 'dict', 'kv': [[{'k': 'str', 's': 'o'}, {'k': 'dict', 'kv': [[{'k': 'str', 's': 'x'}, {'k': 'int', 'n': '1'}],
+                                                                     [{'k': 'str', 's': 'y'}, {'k': 'int', 'n': '2'}]]}]]},
+    {'k': 'list', 'xs': [{'k': 'int', 'n': '1'}, {'k': 'int', 'n': '2'}]},
 ]
 
 
@@ -398,9 +410,13 @@ def make_keys(seed, profile):
             'f0b': [{'s': 'write', 'c': 'c1', 'sz': 4}, {'s': 'return'}]}
     t = rnd.choice(LEAVES)
 
+    mut = rnd.random() < 0.35     # the functions edit the containers they receive in place: identity is unaffected
+
     def call(c, f, spell=None):
         st = {'s': kind, 'f': f, 'catch': True}
         st.update(c)
+        if mut:
+            st['mut_args'] = True
         if kind == 'bf':
             st['p'] = t
             st['cmp'] = 'HASH'
@@ -526,6 +542,64 @@ def make_threads_rb(seed, profile):
         steps.append({'op': 'clean', 'name': 'B'})
     return {'id': '%s-%d' % (profile, seed), 'cache': ['k'], 'universe': [], 'threads': True, 'prog': THREAD_PROGS,
             'steps': steps, 'combo': True}
+
+
+def make_threads_q(seed, profile):
+    """Concurrent calls *and queries* (C09): thread functions look at paths whose answer cannot depend on the
+    other threads - a foreign area nobody builds in, the stale directories of the previous build that nobody
+    re-creates (virtually removed), their own target's ancestors, absent paths - and some threads only query."""
+    rnd = random.Random('threadsq:%s' % seed)
+    foreign = [['z'], ['z', 'f'], ['z', 's'], ['z', 's', 'g']]
+    stale = [['old'], ['old', 'p'], ['old', 'o1'], ['old', 'p', 'o2']]
+    absent = [['zz'], ['zz', 'a']]
+    prog = dict(THREAD_PROGS)
+
+    def q_indep(own):
+        pool = [(p, k) for p in foreign for k in ('exists', 'is_file', 'is_dir', 'list_dir', 'walk', 'get_size', 'read')]
+        pool += [(p, k) for p in stale + absent for k in ('exists', 'is_file', 'is_dir', 'list_dir', 'get_size', 'read')] * 2
+        if own:
+            pool += [(own[:i], k) for i in range(1, len(own)) for k in ('exists', 'is_dir')] * 3
+        p, k = rnd.choice(pool)
+        return {'s': 'q', 'kind': k, 'p': p, 'td': rnd.random() < 0.5, 'cmp': rnd.choice(['METADATA', 'HASH'])}
+    nb = rnd.choice([2, 2, 3])
+    targets = rnd.sample(THREAD_TARGETS, nb)
+    branches = []
+    for i in range(nb):
+        r = rnd.random()
+        if r < 0.6:
+            name = 'fQ%d' % i
+            body = [q_indep(targets[i]) for _ in range(rnd.randrange(0, 3))]
+            body.append({'s': 'write', 'c': rnd.choice(['c1', 'c2']), 'sz': 4})
+            body += [q_indep(targets[i]) for _ in range(rnd.randrange(0, 3))]
+            body.append({'s': 'raise'} if rnd.random() < 0.2 else {'s': 'return'})
+            prog[name] = body
+            branches.append({'s': 'bf', 'p': targets[i], 'f': name, 'args': [i], 'cmp': rnd.choice(['METADATA', 'HASH'])})
+        elif r < 0.8:
+            name = 'fSQ%d' % i
+            prog[name] = [q_indep(None) for _ in range(rnd.randrange(1, 4))] + [{'s': 'raise'} if rnd.random() < 0.15 else {'s': 'return'}]
+            branches.append({'s': 'sb', 'f': name, 'args': [i]})
+        else:
+            branches.append(q_indep(None))
+    steps = [{'op': 'ext', 'do': 'mkdir', 'p': ['z']}, {'op': 'ext', 'do': 'write', 'p': ['z', 'f'], 'c': 'c9', 'sz': 6},
+             {'op': 'ext', 'do': 'mkdir', 'p': ['z', 's']}]
+    if rnd.random() < 0.5:
+        steps.append({'op': 'ext', 'do': 'write', 'p': ['z', 's', 'g'], 'c': 'c8', 'sz': 4})
+    if rnd.random() < 0.7:      # a previous build whose directories go stale
+        first = [{'s': 'bf', 'p': ['old', 'o1'], 'f': 'fW', 'args': [90], 'catch': True},
+                 {'s': 'bf', 'p': ['old', 'p', 'o2'], 'f': 'fW', 'args': [91], 'catch': True}]
+        if rnd.random() < 0.5:
+            first += [dict(b, catch=True) for b in branches if b['s'] != 'q']
+        steps.append({'op': 'build', 'name': 'B', 'vers': {}, 'root': first + [{'s': 'return'}]})
+        if rnd.random() < 0.3:
+            steps.append({'op': 'ext', 'do': 'delete', 'p': ['old', 'o1']})
+    par = {'s': 'par', 'branches': branches, 'preempt': []}
+    crash = rnd.random() < 0.15
+    steps.append({'op': 'build', 'name': 'B', 'vers': {}, 'root': [par, {'s': 'raise'} if crash else {'s': 'return'}]})
+    steps.append({'op': 'build', 'name': 'B', 'vers': {}, 'root': [json.loads(json.dumps(par)), {'s': 'return'}]})
+    if rnd.random() < 0.8:
+        steps.append({'op': 'clean', 'name': 'B'})
+    return {'id': '%s-%d' % (profile, seed), 'cache': ['k'], 'universe': [], 'threads': True, 'prog': prog,
+            'steps': steps, 'combo': False}
 
 
 def make_straggler(seed, profile):
@@ -690,10 +764,14 @@ def make_nested(seed, profile):
                       'c': 'c9', 'sz': 4})
     for b in range(rnd.choice([3, 3, 4])):
         steps.append({'op': 'build', 'name': 'B', 'vers': {}, 'root': [dict(st) for st in root]})
-        if b and rnd.random() < 0.25:
+        if b and rnd.random() < 0.3:
             t = rnd.choice(used)
+            anc = [t[:i] for i in range(1, len(t))] or [['d']]
             steps.append(rnd.choice([{'op': 'ext', 'do': 'delete', 'p': t}, {'op': 'ext', 'do': 'write', 'p': t, 'c': 'c8', 'sz': 4},
-                                     {'op': 'ext', 'do': 'write', 'p': ['d', 'fz'], 'c': 'c8', 'sz': 4}]))
+                                     {'op': 'ext', 'do': 'write', 'p': ['d', 'fz'], 'c': 'c8', 'sz': 4},
+                                     # a regular file where a (possibly absent) ancestor directory of a target was
+                                     {'op': 'ext', 'do': 'write', 'p': rnd.choice(anc), 'c': 'c7', 'sz': 4},
+                                     {'op': 'ext', 'do': 'write', 'p': anc[0], 'c': 'c7', 'sz': 6}]))
     if rnd.random() < 0.5:
         steps.append({'op': 'clean', 'name': 'B'})
     return {'id': '%s-%d' % (profile, seed), 'cache': ['k'], 'universe': UNIVERSE, 'prog': prog, 'steps': steps}
@@ -754,6 +832,50 @@ def make_selfnest(seed, profile):
     return {'id': '%s-%d' % (profile, seed), 'cache': ['k'], 'universe': universe, 'prog': prog, 'steps': steps}
 
 
+def make_faultretry(seed, profile):
+    """Base histories for fault injection (C14) in which the program *carries on* after a caught library error:
+    the failed call is retried, with the same function or with the one of the previous build (so that the old
+    record is reused after all), inside or outside a subbuild; the build then commits or fails."""
+    rnd = random.Random('faultretry:%s' % seed)
+    targets = rnd.sample([['d', 'x'], ['d', 'e', 'z'], ['g', 'w'], ['x'], ['n', 'm', 'f']], rnd.choice([2, 3]))
+    prog = {'fA': [{'s': 'write', 'c': 'c1', 'sz': 4}, {'s': 'return'}],
+            'fB': [{'s': 'write', 'c': 'c2', 'sz': 6}, {'s': 'return'}],
+            'fC': [{'s': 'write', 'c': 'c3', 'sz': 4}, {'s': 'raise'}]}
+    wrap = rnd.random() < 0.4      # the first build makes its calls inside a subbuild
+    first = [{'s': 'bf', 'p': t, 'f': 'fA', 'args': [i], 'cmp': rnd.choice(['METADATA', 'HASH']), 'catch': True}
+             for i, t in enumerate(targets)]
+    if wrap:
+        prog['sA'] = [dict(c) for c in first] + [{'s': 'return'}]
+        root1 = [{'s': 'sb', 'f': 'sA', 'args': [0], 'catch': True}, {'s': 'return'}]
+    else:
+        root1 = first + [{'s': 'return'}]
+    steps = [{'op': 'build', 'name': 'B', 'vers': {}, 'root': root1}]
+    if rnd.random() < 0.3:
+        t = rnd.choice(targets)
+        steps.append(rnd.choice([{'op': 'ext', 'do': 'delete', 'p': t}, {'op': 'ext', 'do': 'write', 'p': t, 'c': 'c7', 'sz': 6}]))
+    root2 = []
+    for i, t in enumerate(targets):
+        r = rnd.random()
+        orig = dict(first[i])
+        if r < 0.5:       # try something new, then fall back to what the previous build did
+            root2.append({'s': 'bf', 'p': t, 'f': rnd.choice(['fB', 'fB', 'fC']), 'args': [i], 'cmp': orig['cmp'], 'catch': True})
+            root2.append(orig)
+        elif r < 0.7:     # the same call twice (the second is a duplicate unless the first failed in set-up)
+            root2.append({'s': 'bf', 'p': t, 'f': 'fB', 'args': [i], 'cmp': orig['cmp'], 'catch': True})
+            root2.append({'s': 'bf', 'p': t, 'f': 'fB', 'args': [i], 'cmp': orig['cmp'], 'catch': True})
+        else:
+            root2.append(orig)
+    if wrap and rnd.random() < 0.6:
+        root2.append({'s': 'sb', 'f': 'sA', 'args': [0], 'catch': True})
+    rnd.shuffle(root2) if rnd.random() < 0.2 else None
+    crash = rnd.random() < 0.5
+    steps.append({'op': 'build', 'name': 'B', 'vers': {}, 'root': root2 + [{'s': 'raise'} if crash else {'s': 'return'}]})
+    steps.append({'op': 'build', 'name': 'B', 'vers': {}, 'root': [dict(x) for x in root2] + [{'s': 'return'}]})
+    if rnd.random() < 0.5:
+        steps.append({'op': 'clean', 'name': 'B'})
+    return {'id': '%s-%d' % (profile, seed), 'cache': ['k'], 'universe': UNIVERSE, 'prog': prog, 'steps': steps}
+
+
 def make_scenario(seed, profile='general'):
     P = PROFILES[profile]
     if P.get('swap'):
@@ -762,10 +884,14 @@ def make_scenario(seed, profile='general'):
         return make_nested(seed, profile)
     if P.get('selfnest'):
         return make_selfnest(seed, profile)
+    if P.get('faultretry'):
+        return make_faultretry(seed, profile)
     if P.get('straggler'):
         return make_straggler(seed, profile)
     if P.get('threads_rb'):
         return make_threads_rb(seed, profile)
+    if P.get('threads_q'):
+        return make_threads_q(seed, profile)
     if P.get('threads'):
         return make_threads(seed, profile)
     if P.get('keys'):
